@@ -24,6 +24,10 @@ func GenerateX86(ocodes []ocode.Ocode, ctx *CodeGenContext) []byte {
 	log.Printf("debug: [codegen] === ocode processing start ===\n")
 	for _, oc := range ocodes {
 		log.Printf("debug: [codegen] Processing ocode: %s\n", oc)
+		if oc.BitMode != 0 {
+			// encode each statement for the mode that was in force where it was written
+			ctx.BitMode = oc.BitMode
+		}
 		code, err := processOcode(oc, ctx, &machineCode)
 		if err != nil {
 			log.Printf("error: Failed to process ocode: %v", err)
